@@ -258,6 +258,10 @@ impl MainEvent {
         // Keep track of seen wires separately to detect duplicates regardless
         // of the order of the banks.
         let mut wire_seen = [false; TPC_ANODE_WIRES];
+        // Same for pads: a waveform that is empty after removing the delay
+        // samples leaves `pad_signals` as `None`, and the order in which the
+        // PWB packets are visited below is arbitrary.
+        let mut pad_seen = [[false; TPC_PAD_ROWS]; TPC_PAD_COLUMNS];
         // Need to group chunks by board and chip.
         let mut pwb_chunks_map: HashMap<_, Vec<_>> = HashMap::new();
 
@@ -349,11 +353,12 @@ impl MainEvent {
                         usize::from(pad_position.column),
                         usize::from(pad_position.row),
                     );
-                    if pad_signals[pad_index.0][pad_index.1].is_some() {
+                    if pad_seen[pad_index.0][pad_index.1] {
                         return Err(TryMainEventFromDataBanksError::DuplicatePadSignal {
                             position: pad_position,
                         });
                     } else {
+                        pad_seen[pad_index.0][pad_index.1] = true;
                         let baseline = try_pad_baseline(run_number, pad_position)?;
                         let gain = try_pad_gain(run_number, pad_position)?;
                         let delay = try_pad_delay(run_number)?;
